@@ -1,27 +1,29 @@
 #!/bin/sh
-# tools/sweep.sh <lane> <nlanes> <out.tsv>
+# tools/sweep.sh <lane> <nlanes> <out.tsv> [pattern]
 # Runs every mutant (mutants/*.diff) and seeded change (seeded/*/patch.diff) of lane <lane> against
-# (a) the repository's own test suite and (b) the property's quick check, in a scratch worktree and a
-# scratch copy of /verif, so that neither /repo nor /verif's evidence is touched. One TSV row per change.
-lane="$1"; n="$2"; out="$3"
+# (a) the repository's own test suite and (b) the property's quick check, in a scratch worktree
+# (VERIF_REPO) with a scratch output directory (VERIF_OUT), so that neither /repo nor /verif's evidence
+# is touched. One TSV row per change: name, property, suite verdict, check exit code, seconds, first violation.
+lane="$1"; n="$2"; out="$3"; pat="${4:-}"
+V="$(cd "$(dirname "$0")/.." && pwd)"
 export GOFLAGS=-mod=mod GOPROXY=off GOSUMDB=off GOTOOLCHAIN=local
-wt=/tmp/sweep-wt-$lane; vc=/tmp/sweep-verif-$lane
-git -C /repo worktree remove --force $wt 2>/dev/null; rm -rf $wt $vc
+wt=/tmp/sweep-wt-$lane; od=/tmp/sweep-out-$lane
+git -C /repo worktree remove --force $wt 2>/dev/null; rm -rf $wt $od
 git -C /repo worktree add --detach $wt HEAD >/dev/null 2>&1 || exit 2
-rsync -a --exclude .build --exclude .scratch --exclude .git --exclude replays /verif/ $vc/
 : > "$out"
 i=0
-for p in /verif/mutants/*.diff /verif/seeded/*/patch.diff; do
+for p in $V/mutants/*.diff $V/seeded/*/patch.diff; do
+  case "$p" in *"$pat"*) ;; *) continue;; esac
   i=$((i+1)); [ $((i % n)) -eq "$lane" ] || continue
   case "$p" in */seeded/*) name="seeded/$(basename $(dirname $p))"; id=$(basename $(dirname $p) | cut -c1-3);; *) name="mutants/$(basename $p .diff)"; id=$(basename $p | cut -c1-3);; esac
   cd $wt && git checkout -q -- . && git clean -fdq
   if ! git apply "$p" 2>/dev/null; then printf "%s\t%s\tNOAPPLY\t-\t-\n" "$name" "$id" >> "$out"; continue; fi
   if go build ./... >/dev/null 2>&1 && go test -vet=off -count=1 ./... >/tmp/sweep-test-$lane.log 2>&1; then tests=pass; else tests=FAIL; fi
   t0=$(date +%s)
-  o=$(VERIF_REPO=$wt $vc/run.sh $id quick 2>&1); rc=$?
+  o=$(VERIF_REPO=$wt VERIF_OUT=$od $V/run.sh $id quick 2>&1); rc=$?
   t1=$(date +%s)
   v=$(echo "$o" | grep -A2 '^VIOLATION' | sed -n '2,3p' | tr '\n\t' '  ' | cut -c1-260)
   printf "%s\t%s\t%s\t%s\t%ss\t%s\n" "$name" "$id" "$tests" "$rc" "$((t1-t0))" "$v" >> "$out"
 done
-cd /; git -C /repo worktree remove --force $wt; rm -rf $vc /tmp/sweep-test-$lane.log
+cd /; git -C /repo worktree remove --force $wt; rm -rf $od /tmp/sweep-test-$lane.log
 echo "lane $lane done"
